@@ -43,11 +43,15 @@ BODIES = [
     ("\"a%( 1\n %)b\"", "one"), ("(1,\n 2)", "many"), ("\"%( (1, 2)\n\n %)\"", "many"),
     ("# c\n1", "one"), ("1 // x\n2", "multi"), ("# only a comment\n(1, 2)", "many"), ("\"a\nb\"", "one"),
     ("1 /* c\nd */ 2", "multi"), ("// c\n1 (== 2)", "none"), ("# c\n1 )", "reject"), ("# c\n(1, 2) " + BOMB % 2, "fail"),
+    # results that are empty stacks (nothing to print for them) in between others
+    ("1 drop", "one"), ("(1 drop, 2)", "many"), ("(1, 1 drop, 2)", "many"), ("(1 drop, 1 drop, 3)", "many"),
+    ("(1, 2) (drop, )", "many"), ("1 (drop, dup)", "many"), ("(1 drop, \"x\" 2)", "multi"),
     ("(1, 1 2, 3)", "multi"), ("(1 2, 3, 4 5)", "multi"), ("(1 2, 3)", "multi"), ("(1, 2 3 4)", "multi"),
 ]
 
 DW_PREFIX = [
     ("", "keep"),                   # Dwarf value stays below
+    ("(drop, )", "keep"),           # ... or not: one result with the Dwarf value dropped, one with it kept
     ("drop", "consume"),
     ("unit offset", "scalar"), ("entry offset", "scalar"), ("[entry] length", "scalar"), ("name", "scalar"),
     ("entry ?root name", "scalar"), ("entry ?root label", "scalar"), ("[unit] length", "scalar"),
@@ -110,6 +114,8 @@ def gen_scalar_body(rng):
 # ------------------------------------------------------------------ plan
 
 def make_plan(rng, idx):
+    if idx % 20 == 11:
+        return make_dump_plan(rng, idx)
     plan = P.new_plan("C19")
     plan["knobs"] = {"cli": 1, "watchdog_s": 8}
     cli = {"opts": [], "files": [], "args": [], "argv_files_first": rng.random() < 0.3}
@@ -196,8 +202,44 @@ def make_plan(rng, idx):
     return plan, cfg
 
 
+# bodies that yield exactly one DIE per result: the CLI prints each with what
+# `raw attribute` and `[value] swap label` give for it
+DIE_BODIES = ["entry ?(offset 0x120 ?lt)", "entry ?root", "unit root", "entry ?root child ?(pos 12 ?lt)", "[entry ?(offset 0x100 ?lt)] elem",
+              "entry ?(offset 0x100 ?lt) @AT_type", "entry ?TAG_subprogram ?(pos 10 ?lt)", "entry ?TAG_base_type", "entry ?(offset 0x90 ?lt) child",
+              "entry ?TAG_variable ?(pos 10 ?lt)", "unit ?0 entry ?(pos 20 ?lt)"]
+DUMP_PROBE = " raw attribute [value] swap label"
+
+
+def make_dump_plan(rng, idx):
+    """A file whose DIE tree is intact enough to walk but some of whose
+    attribute values cannot be decoded, and a query whose results are DIEs:
+    the failure happens while the CLI prints a result, not while the query
+    computes it.  It is a failure of that execution all the same."""
+    plan = P.new_plan("C19")
+    plan["knobs"] = {"cli": 1, "watchdog_s": 8}
+    cli = {"opts": [o for o in ("-s", "-H", "-h") if rng.random() < 0.2], "files": [], "args": [], "argv_files_first": rng.random() < 0.3}
+    names = rng.sample(["a1.out", "twocus", "nullptr.o", "typedef.o", "enum.o", "dwz-partial2-1", "bitcount.o", "k1.o"], rng.choice([1, 1, 2]))
+    for k, n in enumerate(names):
+        tmp = {"files": []}
+        if (k == 0 or rng.random() < 0.5) and hist.damage_a_file(rng, tmp, [n]):
+            cli["files"].append({"name": n, "health": "damaged", "val": tmp["files"][0]["patches"]})
+        else:
+            cli["files"].append({"name": n, "health": "ok"})
+    cli["query"] = rng.choice(DIE_BODIES)
+    cli["qclass"] = "dies-of-a-damaged-file"
+    cli["dump_probe"] = True
+    cli["qmode"] = rng.choice(["e", "e", "pos", "f"])
+    plan["cli"] = cli
+    derive(plan)
+    return plan, "dump-failure"
+
+
 def make_failing_plan(rng, idx):
     """For C14: invocations whose query fails at run time in some combination."""
+    if rng.random() < 0.3:
+        plan, cfg = make_dump_plan(rng, idx)
+        plan["profile"] = "C14"
+        return plan, "cli-failure"
     for _ in range(20):
         plan, cfg = make_plan(rng, idx)
         if plan["cli"].get("qclass") in ("fail", "fail-for-one-combination") \
@@ -222,6 +264,8 @@ def derive(plan):
             files.append({"vpath": vpath(f), "backing": "", "errno": f["val"]})
         elif f["health"] == "backing":
             files.append({"vpath": vpath(f), "backing": os.path.join(FIX, f["val"]), "errno": 0})
+        elif f["health"] == "damaged":
+            files.append({"vpath": vpath(f), "backing": "", "errno": 0, "patches": [list(x) for x in f["val"]]})
         elif f["health"] == "hdr-eio":
             plan["knobs"]["deny_mmap"] = 1
             io = [[0, 1]]
@@ -391,6 +435,11 @@ def lib_results(z, plan):
     lp2 = P.clone(lp)
     steps = lp2["steps"]
     marks = []
+    probe = cli.get("dump_probe") and cli.get("query") is not None
+    if probe:
+        lp2["progs"].append({"text": cli["query"] + DUMP_PROBE, "mode": 1})
+        steps.append(P.step(0, "PARSE", 50, len(lp2["progs"]) - 1))
+    pmarks = []
     for ci, c in enumerate(combos):
         i = 200 + ci
         steps.append(P.step(0, "MKIN", i, *[tok for (tok, _) in c]))
@@ -400,6 +449,12 @@ def lib_results(z, plan):
             steps.append(P.step(0, "PULL", 200 + ci))
         steps.append(P.step(0, "CANCEL", 200 + ci))
         marks.append((first, c))
+        if probe:
+            steps.append(P.step(0, "EXEC", 400 + ci, 50, i))
+            pmarks.append(len(steps))
+            for k in range(4 * CAP):
+                steps.append(P.step(0, "PULL", 400 + ci))
+            steps.append(P.step(0, "CANCEL", 400 + ci))
     r2 = z.run(lp2)
     if r2.fatal_class() is not None or len(r2.events) != len(steps):
         return None
@@ -424,6 +479,13 @@ def lib_results(z, plan):
         file_idx = c[0][1] if cli["files"] else None
         avs = [x[1] for x in (c[1:] if cli["files"] else c)]
         res["combos"].append({"results": results, "error": error, "file": file_idx, "argvalues": avs})
+    for ci, pf in enumerate(pmarks):
+        for e in r2.events[pf:pf + 4 * CAP]:
+            if e.outcome == "fail":
+                res["combos"][ci]["dump_error"] = e.text("msg") or "?"
+                break
+            if e.outcome in ("end", "skip"):
+                break
     return res
 
 
@@ -676,6 +738,14 @@ def judge(plan, lib, resp):
     if st not in ex.status:
         return ("cli:exit-status", "%s\nexit status %d, expected %s\nstdout=%r\nstderr=%r"
                 % (argv, st, sorted(ex.status), out[:400], err[:400]))
+    opts_ = set(plan["cli"]["opts"])
+    if not (opts_ & {"-q", "--quiet", "--silent", "-c", "--count"}):
+        de = [c_["dump_error"] for c_ in lib.get("combos", []) if c_.get("dump_error")]
+        if de and st != 2:
+            return ("cli:dump-failure-exit-status", "%s\nprinting a result fails (%s: what `raw attribute [value] swap label` gives for a yielded DIE) but the exit status is %d, not 2\nstderr=%r"
+                    % (argv, de[0], st, err[:300]))
+        if de and not err and not (opts_ & {"-s", "--no-messages"}):
+            return ("cli:dump-failure-stderr", "%s\nprinting a result fails (%s) but nothing is written to stderr" % (argv, de[0]))
     dumper_failed = getattr(ex, "unmodelled", False) and st == 2
     if ex.stdout is not None and not dumper_failed and not ex.stdout.fullmatch(out):
         k = "cli:stdout-under-q" if ex.stdout.pattern == b"" and any(
@@ -730,6 +800,14 @@ def judge_failure_clause(plan, lib, resp):
         return None
     if lib.get("arg_fail") or not lib.get("compile_ok"):
         return None
+    if not quiet and not (opts & {"-c", "--count"}):
+        de = [c_["dump_error"] for c_ in ([] if lib.get("no_file_opened") else lib["combos"]) if c_.get("dump_error")]
+        argv = " ".join(repr(a) for a in plan.get("argv", []))
+        if de and resp.cli["status"] != 2:
+            return ("cli-runtime-failure:exit-status", "%s\nprinting a result fails at run time (%s) but the exit status is %d, not 2\nstderr=%r"
+                    % (argv, de[0], resp.cli["status"], resp.cli["err"][:300]))
+        if de and not nomsg and not resp.cli["err"]:
+            return ("cli-runtime-failure:stderr", "%s\nprinting a result fails at run time but nothing is written to stderr" % argv)
     combos = [] if lib.get("no_file_opened") else lib["combos"]
     if quiet or not any(c["error"] is not None for c in combos):
         return None
